@@ -108,6 +108,23 @@ func c02Gen(rng *rand.Rand, tier string, w *bufio.Writer) {
 		second := c02History(rng, id, chron, 2+rng.Intn(3), "x")[3:]
 		emit(append(first, second...))
 	}
+	// damage in the middle of the file (one block header zeroed, intact blocks behind it): the open
+	// must not cut there — every block behind the damage would be destroyed
+	n3 := 2
+	if tier == "thorough" {
+		n3 = 10
+	}
+	for i := 0; i < n3; i++ {
+		chron := c03ChronLine(rng, false)
+		h := &c03Hist{rng: rng}
+		lines := []string{fmt.Sprintf("case %d midfile-damage", id), chron, "live 1000000"}
+		nb := 3 + rng.Intn(3)
+		for b := 0; b < nb; b++ {
+			lines = append(lines, "w "+h.put(1+rng.Intn(4))+","+h.put(1+rng.Intn(4)), "sync")
+		}
+		lines = append(lines, "close", "size", fmt.Sprintf("zap %d", rng.Intn(nb-1)), chron, "load", "w "+h.put(9), "size", chron, "load")
+		emit(lines)
+	}
 	fmt.Fprintln(w, "case tick real-swamp write tick")
 	for _, k := range []int{1, 2, 5} {
 		fmt.Fprintf(w, "tick %d\n", k)
